@@ -15,18 +15,27 @@ LEAVES = ["str", "int", "num", "bool", "str:date-time", "str:date", "str:uuid", 
           "ref_obj", "ref_enum", "ref_alias_dt", "any", "object_bare", "object_addl_true",
           # unions of models with disjoint required keys (so that first-match decoding is unambiguous), flat and nested
           "oneof_refs", "anyof_refs", "anyof_named_union", "oneof_inline_union"]
-WRAPPERS = ["array", "map", "nullable", "inline"]
+WRAPPERS = ["array", "map", "nullable", "inline", "nullable31"]   # nullable31: the OpenAPI 3.1 spellings (type arrays / anyOf null)
 
 
 def all_shapes(max_wrappers: int = 2) -> list[tuple[str, ...]]:
     out: list[tuple[str, ...]] = []
     for n in range(max_wrappers + 1):
         for ws in itertools.product(WRAPPERS, repeat=n):
-            if any(a == b == "nullable" for a, b in zip(ws, ws[1:])):
+            if any(a.startswith("nullable") and b.startswith("nullable") for a, b in zip(ws, ws[1:])):
                 continue
             for leaf in LEAVES:
                 out.append(tuple(ws) + (leaf,))
     return out
+
+
+def chunked(max_wrappers: int, size: int) -> list[list[tuple[int, tuple[str, ...]]]]:
+    """The catalogue cut into documents of `size` shapes; 3.1-spelled shapes never share a document with 3.0-spelled ones
+    (a document states one OpenAPI version)."""
+    cat = list(enumerate(all_shapes(max_wrappers)))
+    v30 = [x for x in cat if "nullable31" not in x[1]]
+    v31 = [x for x in cat if "nullable31" in x[1]]
+    return [part[i:i + size] for part in (v30, v31) for i in range(0, len(part), size)]
 
 
 def expr(shape: tuple[str, ...]) -> str:
@@ -99,6 +108,14 @@ def build(shape: tuple[str, ...], uid: str) -> tuple[dict, dict]:
                     # must be str or int" - a rejection, not a violation; integer enums are made nullable without it)
                     node["enum"] = node["enum"] + [None]
             e = dict(e, nullable=True)
+        elif w == "nullable31":
+            if isinstance(node.get("type"), str) and "enum" not in node:
+                node = dict(node, type=[node["type"], "null"])
+            elif "enum" in node and node.get("type") == "string":
+                node = dict(node, type=["string", "null"], enum=node["enum"] + [None])
+            else:
+                node = {"anyOf": [node, {"type": "null"}]}
+            e = dict(e, nullable=True)
         else:
             pn = f"inner{uid}d{depth}x"
             node = {"type": "object", "properties": {pn: node}}
@@ -136,7 +153,8 @@ def document(shapes: list[tuple[int, tuple[str, ...]]]) -> Doc:
         mf[name] = features(sh)
         paths[f"/s{i}"] = {"get": {"operationId": f"getS{i}", "tags": ["shapes"], "responses": {
             "200": {"description": "ok", "content": {"application/json": {"schema": ref(name)}}}}}}
-    doc = {"openapi": "3.0.3", "info": {"title": "Shapes", "version": "1"}, "paths": paths, "components": {"schemas": schemas}}
+    v = "3.1.0" if any("nullable31" in sh for _, sh in shapes) else "3.0.3"
+    doc = {"openapi": v, "info": {"title": "Shapes", "version": "1"}, "paths": paths, "components": {"schemas": schemas}}
     d = Doc(doc, sexp, [], set())
     d.model_feats = mf   # type: ignore[attr-defined]
     return d
@@ -155,7 +173,8 @@ def response_document(shapes: list[tuple[int, tuple[str, ...]]]) -> Doc:
         ops.append({"seg": seg, "path": f"/{seg}/res", "method": "GET", "tags": ["shapes"], "operationId": f"getShape{i}", "params": [],
                     "body": None, "responses": {"200": {"content": "json", "schema": e}}, "shape": expr(sh)})
         of[seg] = features(sh)
-    doc = {"openapi": "3.0.3", "info": {"title": "Shapes", "version": "1"}, "paths": paths, "components": {"schemas": schemas}}
+    v = "3.1.0" if any("nullable31" in sh for _, sh in shapes) else "3.0.3"
+    doc = {"openapi": v, "info": {"title": "Shapes", "version": "1"}, "paths": paths, "components": {"schemas": schemas}}
     d = Doc(doc, base.sexp, ops, set())
     d.op_feats = of   # type: ignore[attr-defined]
     return d
@@ -175,7 +194,8 @@ def request_document(shapes: list[tuple[int, tuple[str, ...]]]) -> Doc:
                     "body": {"media": "application/json", "schema": e, "required": True}, "responses": {"204": {"content": None}},
                     "shape": expr(sh)})
         of[seg] = features(sh)
-    doc = {"openapi": "3.0.3", "info": {"title": "Shapes", "version": "1"}, "paths": paths, "components": {"schemas": schemas}}
+    v = "3.1.0" if any("nullable31" in sh for _, sh in shapes) else "3.0.3"
+    doc = {"openapi": v, "info": {"title": "Shapes", "version": "1"}, "paths": paths, "components": {"schemas": schemas}}
     d = Doc(doc, base.sexp, ops, set())
     d.op_feats = of   # type: ignore[attr-defined]
     return d
